@@ -669,7 +669,7 @@ Proof.
   induction d as [|[k x] r IH]; intros acc ents; cbn [native_entries].
   - intros E. injection E as <-. auto.
   - destruct (is_vell x).
-    + cbn [bind]. intros E Hacc. apply (IH _ _ E). apply set_entry_fixed; [reflexivity | exact Hacc].
+    + cbn [bind]. intros E Hacc. apply (IH _ _ E). apply set_entry_fixed; [destruct (is_kell k); reflexivity | exact Hacc].
     + destruct (sub_from_native x) as [s| |] eqn:Es; cbn [rmap bind]; try discriminate.
       intros E Hacc. apply (IH _ _ E). apply set_entry_fixed; [|exact Hacc].
       unfold fixed_opt. cbn [erase_opt]. f_equal. eapply sub_from_native_fixed; eauto.
